@@ -151,6 +151,7 @@ type Out struct {
 	nontrivial map[string]bool
 	Samples    []any
 	Extra      []string // extra vernacular appended to each shard (rare)
+	Flags      bool     // the Run module defines run_flags : list (nat * case) -> list (nat * list nat)
 }
 
 func NewOut(dir, prop, runModule, caseType string, shard int) *Out {
@@ -210,6 +211,10 @@ func (o *Out) Flush() error {
 		b.WriteString("Definition mm := Eval vm_compute in run_mismatches cases.\n")
 		b.WriteString("Definition mo := Eval vm_compute in run_monitor cases.\n")
 		b.WriteString("Goal True. let a := eval unfold mm in mm in idtac \"MISMATCH\" a. let b := eval unfold mo in mo in idtac \"MONITOR\" b. idtac \"SHARD-DONE\". exact I. Qed.\n")
+		if o.Flags {
+			b.WriteString("Definition fl := Eval vm_compute in run_flags cases.\n")
+			b.WriteString("Goal True. let a := eval unfold fl in fl in idtac \"FLAGS\" a. idtac \"FLAGS-DONE\". exact I. Qed.\n")
+		}
 		for _, e := range o.Extra {
 			b.WriteString(e + "\n")
 		}
@@ -240,4 +245,16 @@ func (o *Out) Flush() error {
 	}
 	data, _ := json.MarshalIndent(st, "", " ")
 	return os.WriteFile(filepath.Join(o.Dir, "stats.json"), data, 0o644)
+}
+
+// Pick3 returns one of three ints.
+func (r *Rng) Pick3(a, b, c int) int {
+	switch r.Intn(3) {
+	case 0:
+		return a
+	case 1:
+		return b
+	default:
+		return c
+	}
 }
